@@ -472,6 +472,57 @@ class Flow:
             self._tick(len(cur))
         return cur
 
+    def evalx(self, node, states, out):
+        """Lazy evaluation of an expression: returns a set of (state, value), processing the calls of `A or B`,
+        `A and B` and `X if C else Y` only on the paths on which Python would evaluate them."""
+        res = set()
+        if isinstance(node, ast.BoolOp):
+            cur = {(st, None) for st in states}
+            pending = set(states)
+            final = set()
+            for i, v in enumerate(node.values):
+                last = i == len(node.values) - 1
+                nxt = set()
+                for st2, val in self.evalx(v, pending, out):
+                    t, f = self.truth_vals(val)
+                    is_or = isinstance(node.op, ast.Or)
+                    stop, go = (t, f) if is_or else (f, t)
+                    if last:
+                        final.add((st2, val))
+                        continue
+                    if stop:
+                        keep = frozenset(a for a in val if (self.truth_vals(frozenset([a]))[0] if is_or else self.truth_vals(frozenset([a]))[1]))
+                        final.add((st2, keep or val))
+                    if go:
+                        nxt.add(st2)
+                pending = nxt
+                if not pending:
+                    break
+            return final
+        if isinstance(node, ast.IfExp):
+            ts, fs = set(), set()
+            for st in states:
+                a, b = self.split(node.test, st, out)
+                ts |= a
+                fs |= b
+            return self.evalx(node.body, ts, out) | self.evalx(node.orelse, fs, out)
+        if isinstance(node, ast.Call):
+            cur = set(states)
+            # arguments first
+            for a in list(node.args) + [k.value for k in node.keywords]:
+                cur = {st for st, _ in self.evalx(a, cur, out)}
+            if isinstance(node.func, ast.Attribute):
+                cur = {st for st, _ in self.evalx(node.func.value, cur, out)}
+            for st in cur:
+                for e in self.c.call_raises(node, st):
+                    out.exc.add((st, e, node))
+                for s2 in self.c.call_effect(node, st):
+                    res.add((s2, self.eval(node, s2)))
+            self._tick(len(res))
+            return res
+        cur = self.do_calls(node, states, out)
+        return {(st, self.eval(node, st)) for st in cur}
+
     def assign(self, target, value_node, st, val=None):
         if isinstance(target, ast.Name):
             if self.c.track is not None and target.id not in self.c.track:
@@ -491,6 +542,12 @@ class Flow:
         return st
 
     def stmt(self, s, states, cur_exc):
+        out = self._stmt(s, states, cur_exc)
+        if isinstance(s, (ast.Expr, ast.Assign, ast.AugAssign, ast.AnnAssign)) and hasattr(self.c, "stmt_effect"):
+            out.normal = {self.c.stmt_effect(s, st) for st in out.normal}
+        return out
+
+    def _stmt(self, s, states, cur_exc):
         out = Outcome()
         self._tick(len(states))
         if isinstance(s, (ast.FunctionDef, ast.AsyncFunctionDef, ast.ClassDef, ast.Import, ast.ImportFrom,
@@ -505,6 +562,10 @@ class Flow:
         if isinstance(s, ast.Assign):
             for st in states:
                 self.c.on_stmt(s, st)
+            if getattr(self.c, "lazy_expr", False) and len(s.targets) == 1 and isinstance(s.targets[0], ast.Name):
+                for st, val in self.evalx(s.value, states, out):
+                    out.normal.add(self.assign(s.targets[0], None, st, val))
+                return out
             cur = self.do_calls(s.value, states, out)
             for st in cur:
                 for t in s.targets:
@@ -527,6 +588,11 @@ class Flow:
                 out.normal.add(st)
             return out
         if isinstance(s, ast.Return):
+            if getattr(self.c, "lazy_expr", False) and s.value is not None:
+                for st, val in self.evalx(s.value, states, out):
+                    self.c.on_stmt(s, st)
+                    out.ret.add((st.set("$ret", val), s))
+                return out
             cur = self.do_calls(s.value, states, out)
             for st in cur:
                 self.c.on_stmt(s, st)
